@@ -425,7 +425,7 @@ func c15Run(r *core.Run) {
 		flamego.SetEnv(flamego.EnvType(env))
 		r.Parallel(func(w, nw int, l *core.Local) {
 			for ci := w; ci < len(cfgs); ci += nw {
-				if ci%8 == 0 && r.Expired() {
+				if r.Expired() {
 					return
 				}
 				c := cfgs[ci]
